@@ -950,19 +950,17 @@ def _c08():
         h("cin_blank_dash", prior + " with blank sizes; Sign::configure_if_needed: Ok; a ready sign is left alone, any other is freshly configured", type="Max3000Dash30x7", prior="0x0"),
         h("cin_withpage_dash", prior + " 12x8 with one stored page; Sign::configure_if_needed", tier="thorough", type="Max3000Dash30x7", prior="12x8 one page"),
         h("send_p0", "sign configured 12x8 in ANY page-accepting state (config received, pixels failed, page loaded/shown/in progress, showing pages); send_pages(no pages): Ok(style), no pages stored, loaded/showing state", p=0, pages=0),
-        h("send_p1", "same prior; send_pages(one 12x8 page, ALL 16 bytes symbolic): Ok(matching flip style); the sign holds exactly that page byte for byte; page-loaded (manual) / showing-pages (automatic)", pages=1),
-        h("send_p1_over_old", "prior additionally holds an old stored page; send_pages(one page) replaces it", pages=1, old_pages=1),
-        h("send_p2", "send_pages(two 12x8 pages, all bytes symbolic): both stored in order", tier="thorough", p=2, pages=2, timeout=5400),
-        h("send_p1_30x7", "sign configured 30x7; send_pages(one 48-byte page, three chunks)", tier="thorough", ilen=48, pages=1, timeout=5400, mem=12),
-        h("send_p2_30x7_over_old", "sign configured 30x7 holding an old page; send_pages(two 48-byte pages)", tier="thorough", ilen=48, p=2, pages=2, timeout=7200, mem=14),
+        H("c08::model_composition_p1_16", "composition lemma on the reference machines: RefCtl's send_pages stream for one 16-byte page (bytes symbolic) fed into ref_sign_step from any page-accepting state: success, matching style, the sign holds exactly the page", unwind=20, params={"pages": 1, "page_bytes": 16}, lemma="composition"),
+        H("c08::model_composition_p2_48", "same for two 48-byte pages (3 chunks each)", unwind=20, params={"pages": 2, "page_bytes": 48}, lemma="composition"),
+        H("c08::model_composition_p3_336", "same for three 336-byte pages (21 chunks each; the largest supported sign)", tier="thorough", unwind=72, params={"pages": 3, "page_bytes": 336}, timeout=3000, lemma="composition"),
         h("show_loaded", "sign holding a page in ANY of page loaded / load in progress / shown / show in progress / showing pages; show_loaded_page: Ok; manual sign ends page-shown, automatic sign unchanged", op="show_loaded_page"),
         h("load_next", "same prior; load_next_page: Ok; manual sign ends page-loaded, automatic unchanged", op="load_next_page"),
     ]
     return Prop(
         "C08",
         ["Sign::{configure, configure_if_needed, send_pages, show_loaded_page, load_next_page} (real)", "VirtualSignBus::process_message / VirtualSign::process_message (real)", "Page::from_bytes / as_bytes", "SignType::to_bytes / from_bytes / dimensions"],
-        "prior sign state: every invariant state in the listed size shapes; configure as Max3000Dash30x7 (quick), HorizonDash40x12 and Max3000Side90x7 (thorough); send_pages with 0-1 pages of 16 bytes quick, 2 pages and 48-byte pages thorough, all page bytes symbolic; both flip styles; show / load-next from every page state",
-        "other sign types and page sizes (the transfer code is size-generic; the 11 configuration blocks themselves are C19's subject); page lists longer than 2; more than one sign on the bus (C14)",
+        "prior sign state: every invariant state in the listed size shapes; configure as Max3000Dash30x7 (quick), HorizonDash40x12 and Max3000Side90x7 (thorough); configure_if_needed; send_pages with an empty page list from every page-accepting state; show / load-next from every page state; both flip styles. That pages ARRIVE bit-exact is decided compositionally: C09 (the controller's chunk stream is exactly the pages' bytes, in order, correctly offset and counted, for every page content) + C13 (the virtual sign assembles exactly the chunks it receives into pages of the configured size and reports 'received' iff the count matches) + C10 (the controller accepts exactly that report); plus the composition lemma c08::model_composition_* on the two reference machines (RefCtl's stream fed into ref_sign_step stores exactly the pages, for symbolic page bytes)",
+        "a direct query of send_pages with page data from an ARBITRARY prior sign state (Sign + VirtualSign + page buffers in one formula exhaust 44 GB in CBMC, even from a fresh sign; covered compositionally as stated); other sign types (the 11 configuration blocks themselves are C19's subject); more than one sign on the bus (C14)",
         CTL_STUBS,
         COMMON_ASSUME + ["prior states constrained only by vsign::inv_holds (proved inductive by C12)", "hook: VirtualSign::verif_from_parts / verif_parts", "Sign, bus and results are mem::forget-ed at the end (drop glue is not part of the property)"],
         ["c08::"],
